@@ -46,6 +46,9 @@ type Partition struct {
 	Replicas []int32
 	Log      []Rec
 	pids     map[int64]*pidState
+	// consumer-side log
+	Batches  []*StoredBatch
+	LogStart int64
 }
 
 type BrokerNode struct {
@@ -110,9 +113,16 @@ type Cluster struct {
 	// AnswerRank is the default priority class of answer actors.
 	AnswerRank int
 	// MetaVersionCap lowers the metadata response version (0 = use the request's).
-	Produced    []ProduceEvent
-	Requests    []string // kinds of all requests seen, in arrival order per decision
-	FaultsTaken []string
+	// AnswerIdleFetch: let fetches that have nothing to return be answered (long-poll expiry)
+	AnswerIdleFetch bool
+	// BatchesPerFetch > 0: a fetch returns that many whole batches per partition (instead of a byte range)
+	BatchesPerFetch int
+	// AbortedOrder permutes the aborted-transaction index of a fetch response (any order is legal)
+	AbortedOrder func([][2]int64) [][2]int64
+	Fetched      []FetchEvent
+	Produced     []ProduceEvent
+	Requests     []string // kinds of all requests seen, in arrival order per decision
+	FaultsTaken  []string
 
 	Handlers map[string]func(r *Req) []gx.Variant // extra request kinds registered by rigs
 	Now      func() time.Time
@@ -274,7 +284,11 @@ func (cl *Cluster) actors() []gx.Actor {
 			continue
 		}
 		_, isMeta := r.Body.(*sarama.MetadataRequest)
-		acts = append(acts, gx.Actor{Label: "ans:" + r.Conn.Label, Rank: cl.AnswerRank, Variants: vs, Urgent: isMeta && cl.UrgentMetadata})
+		rank := cl.AnswerRank
+		if len(vs) == 1 && strings.HasSuffix(vs[0].Name, ".poll-expires") {
+			rank = 5 // default: only when nothing else can happen
+		}
+		acts = append(acts, gx.Actor{Label: "ans:" + r.Conn.Label, Rank: rank, Variants: vs, Urgent: isMeta && cl.UrgentMetadata})
 	}
 	return acts
 }
@@ -282,7 +296,7 @@ func (cl *Cluster) actors() []gx.Actor {
 func (cl *Cluster) wrap(r *Req, kind, name string, f func()) gx.Variant {
 	return gx.Variant{Name: kind + "." + name, Do: func() {
 		cl.pop(r)
-		if name != "ok" {
+		if name != "ok" && name != "poll-expires" {
 			cl.FaultsTaken = append(cl.FaultsTaken, kind+"."+name)
 		}
 		f()
@@ -328,6 +342,10 @@ func (cl *Cluster) variants(r *Req) []gx.Variant {
 		})}
 	case *sarama.ProduceRequest:
 		return cl.produceVariants(r, b)
+	case *sarama.FetchRequest:
+		return cl.fetchVariants(r, b)
+	case *sarama.OffsetRequest:
+		return cl.offsetVariants(r, b)
 	}
 	panic(fmt.Sprintf("simkafka: no handler for %T", r.Body))
 }
